@@ -1,4 +1,5 @@
 import Ledger.Proofs.SqlUpdate
+import Ledger.Proofs.SqlValues
 import Ledger.Proofs.SqlRevertExpr
 
 /-!
@@ -110,22 +111,6 @@ def txConf2 (x x' : TxR) : Bool :=
   | some ref, some ref' => x'.ledger == x.ledger && ref' == ref && ref' != ""
   | _, _ => false
 
-theorem compareForSort_int (a b : Int) : compareForSort (.int a) (.int b) = .ok (cmpInt a b) := by
-  simp [compareForSort, compareValues, compareScalar]; rfl
-
-theorem cmpStr_ne' (a b : String) : (cmpStr a b != Ordering.eq) = (a != b) := by
-  show (!(cmpStr a b == Ordering.eq)) = !(a == b)
-  rw [cmpStr_eq']
-  by_cases h : a = b <;> simp [h]
-
-theorem compareForSort_text' (x y : String) : compareForSort (.text x) (.text y) = .ok (cmpStr x y) := by
-  simp [compareForSort, compareValues, compareScalar]
-  rfl
-
-theorem evalBinop_ne_text (a b : String) : evalBinop .ne (.text a) (.text b) = .ok (.bool (a != b)) := by
-  simp [evalBinop, compareValues, compareScalar, ofTruth, cmpStr_ne']
-  rfl
-
 theorem exec_predHolds_tx2 (b : String) (trigs : List TriggerDef) (nr : Nat) (rows : List Ver) (x : TxR) (s : St) :
     (predHolds ((txT b trigs nr).withRows rows) txIdx2.pred (txVals x)).exec s =
       (.ok (match x.reference with | some ref => ref != "" | none => false), s) := by
@@ -157,8 +142,6 @@ theorem exec_keyMatches_tx1 (b : String) (trigs : List TriggerDef) (nr : Nat) (r
   simp only [keyMatches, hk, exec_bind, sameGroupKey_text_int, exec_liftR_ok, txConf1]
   cases (x'.ledger == x.ledger && x'.id == x.id) <;> simp [predHolds, txIdx1]
 
-
-theorem compareForSort_null_text (q : String) : compareForSort .null (.text q) = .ok Ordering.gt := rfl
 
 theorem sameGroupKey_text_optText (a b : String) (r' : Option String) (ref : String) :
     sameGroupKey [.text a, optText r'] [.text b, .text ref] = .ok (a == b && r' == some ref) := by
